@@ -1,5 +1,6 @@
 import Fpdec.Lemmas.Text
 import Fpdec.Kernels.Format
+import Fpdec.Kernels.Misc
 import Fpdec.Model.Parser
 import Fpdec.Lemmas.Parse
 import Fpdec.Props.C07_Sites
@@ -14,8 +15,11 @@ import Fpdec.Props.C07_Sites
   the text is made of bytes and is shorter than 64.
 * `roundtrip_of_parser`: composing with the parser theorem of C06 (`FromStrSpec`, discharged in `Props/C06.lean`) gives
   `Decimal::from_str(d.to_string()) = Ok(d)` with identical coefficient and digit count.
-serde-as-str is `into = "String"` / `try_from = "String"` around these two functions; serde's glue is exercised by the
-correspondence run with the feature enabled, not modelled.
+* serde-as-str (`serde_glue`, `serde_roundtrip`): the attributes of `struct Decimal` are re-extracted on every run; they are the
+  derive with `into = "String"` / `try_from = "String"` and nothing else, and no hand-written `Serialize`/`Deserialize` impl
+  exists — so serialising is `serialize_str(String::from(d))` and deserialising `Decimal::try_from(String)`, whose *translated*
+  bodies round-trip: `try_from(String::from(d)) = Ok(d)`.  serde's own code (the derive expansion, `serde_json`) is exercised by
+  the correspondence run with the feature enabled, not modelled.
 -/
 
 namespace Fpdec.Props.C07
@@ -84,5 +88,17 @@ theorem kernel_to_string_spec (prof : Profile) (tm : Mode) (d : Dec) (hd : Dom d
 theorem kernel_debug_spec (prof : Profile) (d : Dec) (f : Std.FmtSpec) (hd : Dom d) :
     Gen.K.decimal_debug_fmt prof d f = .ok ([68, 101, 99, 33, 40] ++ Spec.render d.coeff d.nfrac ++ [41]) := by
   rw [Kernels.decimal_debug_fmt_eq prof d f hd]; exact debug_spec prof d hd
+
+/-! ### feature serde-as-str -/
+/-- the serde glue attached to `struct Decimal`, as extracted from src/lib.rs on this run -/
+theorem serde_glue :
+    Gen.SERDE_DERIVES = ["Serialize", "Deserialize"] ∧ Gen.SERDE_INTO = "String" ∧ Gen.SERDE_TRY_FROM = "String" ∧
+    Gen.SERDE_OTHER_ATTRS = 0 ∧ Gen.SERDE_MANUAL_IMPLS = 0 ∧
+    Gen.DECIMAL_FIELDS = [("coeff", "i128"), ("n_frac_digits", "u8")] := by decide
+/-- `Decimal::try_from(String::from(d)) = Ok(d)` for the translated bodies of this run (what serialize ∘ deserialize computes) -/
+theorem serde_roundtrip (prof : Profile) (d : Dec) (hd : Dom d) :
+    (Gen.K.string_from_decimal prof d >>= Gen.K.decimal_try_from_string prof) = .ok (.ok d) := by
+  rw [kernel_string_from_spec prof d hd, Kernels.bind_ok', Kernels.decimal_try_from_string_eq]
+  exact roundtrip prof d hd
 
 end Fpdec.Props.C07
